@@ -82,6 +82,7 @@ pub use crate::buf::{Buf, BufMut};
 mod bytes;
 mod bytes_mut;
 mod fmt;
+#[cfg_attr(tokio_rs_bytes_verif, path = "verif_sync.rs")]
 mod loom;
 pub use crate::bytes::Bytes;
 pub use crate::bytes_mut::BytesMut;
